@@ -85,6 +85,8 @@ CLAIMS["C19"] = ("site guards on payouts (comparison strictness), post-payout mu
 
 # repository-wide rules instantiated from the code itself (generic.go, recordlink.go), scoped per property
 GENERIC = {
+    "C17": " Also: the wide window sum is divided before it is narrowed; consumers in every module read the stored price only under found and IsPriceActive of the very record read (4 known findings: reward valuation and the V2 bid path accept an inactive price).",
+    "C15": " Also: at any depth inside a unit the error of a step that can fail after writing state is tested, handed on or returned, never dropped.",
     "C12": " Also: a record stored under an id read from a counter advances that counter on the same success path (otherwise the next creation overwrites the record and its owner).",
     "C05": " Also: a matching function given the fill price judges and fills every order at that price only; MatchableAmount applies its zero-quote-value test on every path (both directions).",
     "C06": " Also: the denomination-linkage and execute-once rules of the liquidity module (foreign shares redeemed against a pool, or a deposit executed twice, change the reserves per share).",
@@ -99,7 +101,7 @@ GENERIC = {
     "C11": " Also: the minimum bid step is rounded up; a deleted limit-bid deposit leaves the recorded total (paired writers). Also (auction modules): identifier-kind agreement at every keeper call and no stale copy for every Get/Set accessor pair. Also: in the automatic fill each reduction of the recorded limit-bid total equals the change of the depositor's record on the same path.",
     "C13": " Also: identifier-kind agreement and generic stale-copy rule for locker and collector, per-asset books receive the amount of the same side (sold lot / raised asset) of the auction record as the asset id they are keyed by, and locker handlers tie the records loaded under independent message ids. Also: UpdateCollector raises the net fees by the sum of exactly the fee amounts handed in; counter provenance for locker ids.",
     "C14": " Also: the failure branch of a price/ratio helper cannot reach a success exit; every call into the esm and market keepers passes ids of the kind the callee names (the breaker is not looked up under an asset id); vault/locker/lend handlers tie the records loaded under independent message ids (the breaker's app is the position's app). Also: a sweep that consults the breaker of the app it sweeps seizes only vaults tied to that app.",
-    "C19": " Also (rewards module): identifier-kind agreement at every keeper call.",
+    "C19": " Also (rewards module): identifier-kind agreement at every keeper call. Also: the per-epoch split gives the extra unit to exactly total%n epochs; each selection of the priced reserve side is decided on the edges of its denom test.",
 }
 
 CLAIMS["C18"] = ("comparison guard on the elapsed-time difference (finite orderings), must-pass-through store rule, expression-identity carry rule",
